@@ -25,16 +25,16 @@ CLAIMED = {
     'C06': ('H-EVAL', 'Every panic / InternalError site in the MIR is reachable-or-not decided on every path of the exploration; any reached one is a violation.', '7.6'),
     'C07': ('H-EVAL', 'Blocked-set monitor on every path with failures + validity queries for the failure-free twin of unaffected Always/Output jobs.', '7.7'),
     'C08': ('H-EVAL', 'Returned history of every completed path (symbolic presence and terms): failed / running-at-abort jobs have no own records, their incoming edge records are identical to the input history.', '7.8'),
-    'C09': ('H-EVAL+H-RESUME', '(a) returned history of every completed path: never-started upstream-failed/aborted jobs keep own and incoming-edge records (identical presence atoms and terms, modulo the comparison). (b) triple exploration: every interrupted evaluation E1 (any failure subset / abort point), failure-free resume E2 from the symbolic history E1 returned, and every uninterrupted evaluation U from the same start; z3 decides for each compatible (E2,U) pair that E2 executes nothing U does not, re-executes no Output that succeeded in E1, and returns U\'s history.', '7.9'),
+    'C09': ('H-EVAL+H-RESUME', 'Job behaviours deterministic and the starting history Sound (as in C01). (a) returned history of every completed path: never-started upstream-failed/aborted jobs keep own and incoming-edge records (identical presence atoms and terms, modulo the comparison). (b) triple exploration: every interrupted evaluation E1 (any failure subset / abort point), failure-free resume E2 from the symbolic history E1 returned, and every uninterrupted evaluation U from the same start; z3 decides for each compatible (E2,U) pair that E2 executes nothing U does not, re-executes no Output that succeeded in E1, and returns U\'s history; a resumed evaluation that cannot complete (internal error, stall) is a violation.', '7.9, 14'),
     'C10': ('H-EVAL', 'Abort is explored at every quiescent state of every path (with every subset of running jobs failed first): result Ok, finished, nothing ready/running, history obtainable.', '7.10'),
     'C11': ('H-EVAL', 'Returned history vs reported outputs / consumed upstream outputs term by term; skipped jobs: validity query that each edge record matches the upstream\'s current output under the comparison.', '7.11'),
-    'C12': ('H-EVAL2', 'Every failure-free first evaluation from every well-formed symbolic history is followed by a second evaluation from the symbolic history it returned (same outputs, nothing changed), all schedules: no Output job started, Ephemerals only for Always consumers, validity query H2 ~ H1 key by key; all single-evaluation oracles also run on the second evaluation.', '7.12'),
+    'C12': ('H-EVAL2', 'Every failure-free first evaluation from every well-formed symbolic history is followed by a second evaluation from the symbolic history it returned (nothing changed; under a comparison coarser than string equality an Always job that runs again may report an equivalent but textually different value), all schedules: no Output job started, Ephemerals only for Always consumers, validity query H2 ~ H1 key by key; all single-evaluation oracles also run on the second evaluation. Universes include graph edits, renamed multi-output ids and the production input-name convention.', '7.12'),
     'C13': ('H-EVAL', 'Cleanup automaton per Ephemeral on every path, acknowledgement delay is a schedule choice.', '7.13'),
     'C16': ('H-EVAL', 'Every success event of a re-executed Ephemeral with a fresh symbolic output: error <=> validated and output judged altered, as validity queries; error only if inputs unchanged per reference.', '7.16'),
     'C14': ('H-ORDER', 'Failure-free evaluation explored under every interleaving / cleanup delay and under several declaration orders of nodes and edges; for every pair of completed paths with different outcome z3 decides whether one input (history, present set, outputs, comparison relation) admits both.', '7.14'),
-    'C15': ('H-EVAL+H-ORDER', 'The C03/C04/C06/C07/C11/C16 oracles and the C14 pairwise check under S-rel (and S-prod in thorough): the comparison is an uninterpreted equivalence relation (kernel of an uninterpreted function), so every obligation is decided for all comparison functions at once; only violations that do not also occur under plain string inequality are attributed to C15.', '7.15'),
+    'C15': ('H-EVAL+H-ORDER', 'The C03/C04/C06/C07/C11/C16 oracles and the C14 pairwise check under S-reld (S-rel and S-prod added in thorough; the production-convention universes of H-HIST always): the comparison is an uninterpreted equivalence relation that may depend on whose output is compared and for which consumer (kernel of uninterpreted functions), so every obligation is decided for all comparison functions at once; only violations that do not also occur under plain string inequality are attributed to C15.', '7.15'),
     'C18': ('H-HIST+H-EVAL', 'Universes with symbolic stale records (absent jobs, removed dependencies, superseded multi-output ids incl. plain->multi and multi->plain, production input-name convention): per record of the input history a validity query decides kept-unchanged / dropped on every completed path (faults and aborts included); every returned key is in the input history or describes the current graph.', '7.18'),
-    'C20': ('H-EVAL', 'At every distinct reachable engine state of the exploration every illegal call on every job (start, success, failure, cleanup acknowledgement, second startup) is executed on a copy: result must be APIError and the complete engine state and all query results must be exactly unchanged.', '7.20'),
+    'C20': ('H-EVAL', 'At every distinct reachable engine state of the exploration every illegal call on every job (start, success, failure, cleanup acknowledgement, second startup) is executed on a copy: result must be APIError and the complete engine state (every field, incl. the signal queue and generation counter; the query results are functions of it) must be exactly unchanged. Which finish reports are illegal is decided by the driver's own record of delivered events, not by the engine's reports. Complete enumerations (<= 3 jobs): every distinct state; H-BUILT universes: every 8th.', '7.20'),
     'C17': ('H-EVAL', 'Report-consistency invariants at every quiescent state of every path (ready/running/failed/upstream-failed/cleanup/finished vs driver events and per-job states), and a write barrier on NodeInfo.state inside every call: each MIR assignment to a JobState place is checked for kind change, finished -> unfinished and success -> failed/upstream-failed/aborted at the instruction where it happens.', '7.17, 14'),
 }
 
